@@ -343,6 +343,8 @@ def run(ck):
     # recorded with line 1, the same m the second time) is itself a disagreement with the model
     for name, args, cat, text, o in dropped:
         found = True
+        if len(ck.violations) >= 3:
+            continue
         ck.violation({
             "kind": "a failing %s command's error did not surface as the model predicts for any message" % ("script-implemented" if cat == "script" else "library"),
             "script": text, "implementation": o,
@@ -366,62 +368,77 @@ def run(ck):
         cases.append((main, fdefs, None, "sequence"))
     n_seq = len(cases) - n_place
     n_rand = 120000 if thorough else 12000
+    nontriv = set()          # hashes of distinct non-trivial cases
+    err_cmds = {"trigger_error", "assert_error", "hfail", "myfail"} | set(fails)
+    samples = []
+    n_total = [0]
+
+    def process(cases):
+        """render, run both sides, compare; nothing is kept afterwards (thorough tier: bounded memory)"""
+        nonlocal found
+        m_lines, i_lines, texts = [], [], []
+        for main, fdefs, src, kind in cases:
+            text, files, executed = build(main, fdefs, src, rng if kind == "random" else None)
+            m_lines.append(model_line(executed, fails))
+            i_lines.append(impl_line(text, files, src))
+            texts.append((text, files, executed))
+        if not samples:
+            samples.extend([texts[0][0], texts[len(texts) // 4][0]])
+        m_out = ck.model(m_lines)
+        i_out = ck.impl(i_lines)
+        n_total[0] += len(cases)
+        for k, (m, i) in enumerate(zip(m_out, i_out)):
+            main, fdefs, src, kind = cases[k]
+            text, files, executed = texts[k]
+            f = m.split("\t")
+            key = f[0] + (":" + f[1].split(" ")[0] if len(f) > 1 else "")
+            stats["model_outcome"][key] = stats["model_outcome"].get(key, 0) + 1
+            stats["mode"]["file" if src else "text"] += 1
+            if files:
+                stats["with_include"] += 1
+            nerr = sum(1 for ins in executed if ins["cmd"] in err_cmds)
+            stats["errors_per_run"][min(nerr, 10)] = stats["errors_per_run"].get(min(nerr, 10), 0) + 1
+            if f[0] == "ERR":
+                stats["exit_on_error_fatal"] += 1
+            if nerr >= 2 or (nerr >= 1 and kind.startswith("placement")):
+                nontriv.add(hash(m_lines[k]))
+            if not agree(m, i, fails):
+                found = True
+                if len(ck.violations) < 5:
+                    ck.violation({
+                        "kind": "model (Runner + SdkErr, C10_step / C10_latest) vs implementation", "case_kind": kind,
+                        "script": text, "included_files": files, "source_file": src,
+                        "executed_sites(line,source,out,cmd,args)": [[ins["meta"][0], ins["meta"][1], ins["out"], ins["cmd"], ins["args"]] for ins in executed][:80],
+                        "model": m, "implementation": i,
+                        "fields": "status, detail, line, source, snapshots (hsnap e l s x y t), watched variables",
+                        "wire_impl": i_lines[k], "wire_model": m_lines[k], "theorems": ["C10_step", "C10_latest", "C10_alias"], "seed": ck.seed,
+                        "replay_cmd": "printf '%s\\n' | .cache/cargo-target/release/c10" % i_lines[k].replace("\t", "\\t")})
+        if cases[-1][3] == "random":
+            samples[2:] = [texts[-1][0]]
+
+    process(cases)
     made = 0
     while made < n_rand:
-        nf = rng.choice([0, 0, 1, 2, 3])
-        fdefs = {}
-        allow_exit = rng.random() < 0.35
-        for j in range(nf):
-            fdefs["f%d" % (j + 1)] = gen_block(rng, 1, libs, list(fdefs), stats, allow_exit)
-        main = gen_block(rng, 0, libs, list(fdefs), stats, allow_exit)
-        if rng.random() < 0.25:
-            pos = rng.randint(0, len(main))
-            main.insert(pos, ("include", os.path.join(SCRATCH, "inc%d.ds" % made), gen_block(rng, 1, libs, list(fdefs), stats, allow_exit)))
-            if rng.random() < 0.3:
-                main.insert(rng.randint(0, len(main)), ("include", os.path.join(SCRATCH, "incb%d.ds" % made), gen_block(rng, 1, libs, [], stats, allow_exit)))
-        main.append(("site", site_query()))
-        if len(flatten(main, fdefs, [])) > 160:
-            continue
-        src = os.path.join(SCRATCH, "r%d.ds" % made) if rng.random() < 0.4 else None
-        cases.append((main, fdefs, src, "random"))
-        made += 1
-
-    m_lines, i_lines, texts = [], [], []
-    for main, fdefs, src, kind in cases:
-        text, files, executed = build(main, fdefs, src, rng if kind == "random" else None)
-        m_lines.append(model_line(executed, fails))
-        i_lines.append(impl_line(text, files, src))
-        texts.append((text, files, executed))
-    m_out = ck.model(m_lines)
-    i_out = ck.impl(i_lines)
-    nontriv = set()
-    err_cmds = {"trigger_error", "assert_error", "hfail", "myfail"} | set(fails)
-    for k, (m, i) in enumerate(zip(m_out, i_out)):
-        main, fdefs, src, kind = cases[k]
-        text, files, executed = texts[k]
-        f = m.split("\t")
-        key = f[0] + (":" + f[1].split(" ")[0] if len(f) > 1 else "")
-        stats["model_outcome"][key] = stats["model_outcome"].get(key, 0) + 1
-        stats["mode"]["file" if src else "text"] += 1
-        if files:
-            stats["with_include"] += 1
-        nerr = sum(1 for ins in executed if ins["cmd"] in err_cmds)
-        stats["errors_per_run"][min(nerr, 10)] = stats["errors_per_run"].get(min(nerr, 10), 0) + 1
-        if f[0] == "ERR":
-            stats["exit_on_error_fatal"] += 1
-        if nerr >= 2 or (nerr >= 1 and kind.startswith("placement")):
-            nontriv.add(i_lines[k])
-        if not agree(m, i, fails):
-            found = True
-            if len(ck.violations) < 5:
-                ck.violation({
-                    "kind": "model (Runner + SdkErr, C10_step / C10_latest) vs implementation", "case_kind": kind,
-                    "script": text, "included_files": files, "source_file": src,
-                    "executed_sites(line,source,out,cmd,args)": [[ins["meta"][0], ins["meta"][1], ins["out"], ins["cmd"], ins["args"]] for ins in executed][:80],
-                    "model": m, "implementation": i,
-                    "fields": "status, detail, line, source, snapshots (hsnap e l s x y t), watched variables",
-                    "wire_impl": i_lines[k], "wire_model": m_lines[k], "theorems": ["C10_step", "C10_latest", "C10_alias"], "seed": ck.seed,
-                    "replay_cmd": "printf '%s\\n' | .cache/cargo-target/release/c10" % i_lines[k].replace("\t", "\\t")})
+        cases = []
+        while made < n_rand and len(cases) < 6000:
+            nf = rng.choice([0, 0, 1, 2, 3])
+            fdefs = {}
+            allow_exit = rng.random() < 0.35
+            for j in range(nf):
+                fdefs["f%d" % (j + 1)] = gen_block(rng, 1, libs, list(fdefs), stats, allow_exit)
+            main = gen_block(rng, 0, libs, list(fdefs), stats, allow_exit)
+            if rng.random() < 0.25:
+                pos = rng.randint(0, len(main))
+                main.insert(pos, ("include", os.path.join(SCRATCH, "inc%d.ds" % made), gen_block(rng, 1, libs, list(fdefs), stats, allow_exit)))
+                if rng.random() < 0.3:
+                    main.insert(rng.randint(0, len(main)), ("include", os.path.join(SCRATCH, "incb%d.ds" % made), gen_block(rng, 1, libs, [], stats, allow_exit)))
+            main.append(("site", site_query()))
+            if len(flatten(main, fdefs, [])) > 160:
+                continue
+            src = os.path.join(SCRATCH, "r%d.ds" % made) if rng.random() < 0.4 else None
+            cases.append((main, fdefs, src, "random"))
+            made += 1
+        process(cases)
 
     # off-domain observation (not compared): an error message containing ${...} is expanded again when it is
     # handed to on_error (the runner binds the synthetic instruction's arguments)
@@ -433,7 +450,7 @@ def run(ck):
                for kf in ck.open_findings()):
             ck.known("error message re-expanded when reported to on_error (message containing ${v})")
     ck.coverage.update({
-        "evaluations": len(cases),
+        "evaluations": n_total[0],
         "distinct_nontrivial": len(nontriv),
         "rule": "every error kind (trigger_error, assert_error, harness command, eval-implemented alias, calibrated failing library and "
                 "script-implemented commands) x 8 placements (top level, function body, loop body, taken branch, else branch, included file, "
@@ -443,7 +460,7 @@ def run(ck):
                 "failing commands (or a placement case)" % (n_place, 5 if thorough else 4, n_seq, n_rand),
         "exhaustive": True,
         "exhaustive_part": {"placements": n_place, "sequences": n_seq},
-        "samples": [texts[0][0], texts[n_place // 2][0], texts[-1][0]],
+        "samples": samples,
         "distribution": stats,
         "off_domain_observations": {"error message with ${v} re-expanded when reported to on_error": rebind},
         "partial": "the executed-site sequence is computed by the generator from constant conditions / fixed iteration counts; the SDK's flow "
